@@ -9,6 +9,9 @@ import (
 	"govc/vc"
 )
 
+// batchChunk: maximal number of checks in one incremental script.
+const batchChunk = 48
+
 type batchStat struct {
 	Batches   int
 	Checks    int
@@ -34,7 +37,8 @@ func runBatches(eng *vc.Engine, obls []*vc.Obligation, results []*oblResult, tmp
 			continue
 		}
 		g := byFunc[o.Func]
-		if g == nil {
+		if g == nil || len(g.idx) >= batchChunk {
+			// a new chunk re-asserts the whole fact prefix, so chunks of one function run in parallel
 			g = &group{}
 			byFunc[o.Func] = g
 			groups = append(groups, g)
